@@ -40,6 +40,7 @@ inductive PV where
   | inst (cls : Str) (fs : List (Str × PV))  -- instance of a `@configstruct` dataclass
 
 inductive PathItem where
+  | elem                 -- `"[]"` (element type of a container, in `_check_config_struct_type`)
   | idx (i : Nat)        -- `"[{}]".format(i)`
   | key (k : Str)        -- `"[{!r}]".format(k)`
   | field (f : Str)      -- the field name / the unknown key itself
@@ -49,12 +50,15 @@ abbrev Path := List PathItem
 
 inductive CfgKind where
   | mismatch | missing | unknown | toplevel
+  | badUnion | badKey | badType     -- `_check_config_struct_type`: unsupported Union / non-string-key dict / data type
   deriving DecidableEq, Repr
 
 /-- the exception types that can leave the modelled functions -/
 inductive PyExc where
   | config (k : CfgKind) (p : Path)   -- `QMI_ConfigurationException`, message names `".".join(path)`
   | typeError
+  | attributeError
+  | osError
   | valueError
   deriving DecidableEq, Repr
 
@@ -68,6 +72,7 @@ field is `(name, type, default?)`; the default is the *value* of `f.default` / `
 inductive Ty where
   | int | float | str | bool | any
   | listAny | tupleAny | dictAny
+  | never                          -- a field type no branch of `_parse_config_value` recognises: every value is a mismatch
   | opt (t : Ty)
   | list (t : Ty)
   | tupleVar (t : Ty)
@@ -286,6 +291,8 @@ def parseValue : Ty → PV → Path → R PV
     match v with
     | .bool b => .ok (.bool b)
     | _ => mismatch p
+  -- an unsupported field type (`set`, a string annotation, …) falls through every test to the final error
+  | .never, _, p => mismatch p
   -- untyped `list` / `List`: `isinstance(val, list)` → the value itself
   | .listAny, v, p =>
     match v with
